@@ -10,14 +10,14 @@ open Chrono Chrono.M Chrono.Spec Chrono.Proofs
 /-- a `match` table with distinct literals and a rejecting wildcard arm returns `v` for `n` exactly
 when `(n, v)` is one of its arms -/
 theorem matchArms_none_iff (arms : List (Int × Nat)) (hnd : (arms.map Prod.fst).Nodup)
-    (n : Int) (v : Nat) : matchArms arms none n = some v ↔ (n, v) ∈ arms := by
+    (n : Int) (v : Nat) : Conv.matchArms arms none n = some v ↔ (n, v) ∈ arms := by
   induction arms with
-  | nil => simp [matchArms]
+  | nil => simp [Conv.matchArms]
   | cons p rest ih =>
     obtain ⟨k, x⟩ := p
     simp only [List.map_cons, List.nodup_cons] at hnd
     obtain ⟨hk, hrest⟩ := hnd
-    rw [matchArms]
+    rw [Conv.matchArms]
     by_cases h : n = k
     · subst h
       rw [if_pos rfl]
@@ -50,13 +50,13 @@ theorem conv_iff_of_table {α : Type} (all : List α) (num : α → Int) (disc :
     (hof : ∀ i a, ofDisc i = some a ↔ i = disc a)
     (hinj : ∀ a b, disc a = disc b → a = b)
     (hall : ∀ a, a ∈ all) (n : Int) (a : α) :
-    (matchArms arms none n).bind ofDisc = some a ↔ n = num a := by
+    (Conv.matchArms arms none n).bind ofDisc = some a ↔ n = num a := by
   have hnd : (arms.map Prod.fst).Nodup := by
     rw [htab, List.map_map]
     exact hnum
   constructor
   · intro h
-    cases hm : matchArms arms none n with
+    cases hm : Conv.matchArms arms none n with
     | none => rw [hm] at h; cases h
     | some v =>
       rw [hm] at h
@@ -98,14 +98,14 @@ theorem month_toNat_inj (a b : Month) (h : a.toNat = b.toNat) : a = b := by
 /-- a weekday table that is the numbering `0 … 6` arm by arm accepts exactly `w.toNat` for `w` -/
 theorem weekday_table_iff (arms : List (Int × Nat))
     (htab : arms = Weekday.all.map (fun w => ((w.toNat : Int), w.toNat))) (n : Int) (w : Weekday) :
-    (matchArms arms none n).bind Weekday.ofDisc = some w ↔ n = w.toNat :=
+    (Conv.matchArms arms none n).bind Weekday.ofDisc = some w ↔ n = w.toNat :=
   conv_iff_of_table Weekday.all (fun w => (w.toNat : Int)) Weekday.toNat Weekday.ofDisc arms htab
     (by decide) weekday_ofDisc_iff weekday_toNat_inj weekday_all_complete n w
 
 /-- a month table that is the numbering `1 … 12` arm by arm accepts exactly `number_from_month` -/
 theorem month_table_iff (arms : List (Int × Nat))
     (htab : arms = Month.all.map (fun m => ((m.number_from_month : Int), m.toNat))) (n : Int) (m : Month) :
-    (matchArms arms none n).bind Month.ofDisc = some m ↔ n = m.number_from_month :=
+    (Conv.matchArms arms none n).bind Month.ofDisc = some m ↔ n = m.number_from_month :=
   conv_iff_of_table Month.all (fun m => (m.number_from_month : Int)) Month.toNat Month.ofDisc arms htab
     (by decide) month_ofDisc_iff month_toNat_inj month_all_complete n m
 
@@ -124,8 +124,8 @@ theorem via_checked_iff {α : Type} (f : Int → Option α) (n k : Int) (a : α)
 
 theorem to_i64_bind_iff {α : Type} (f : Int → Option α) (n k : Int) (a : α)
     (hf : f n = some a ↔ n = k) (hk : inI64 k = true) :
-    (NumTraits.to_i64 n).bind f = some a ↔ n = k := by
-  unfold NumTraits.to_i64
+    (Conv.NumTraits.to_i64 n).bind f = some a ↔ n = k := by
+  unfold Conv.NumTraits.to_i64
   by_cases hu : inI64 n = true
   · rw [if_pos hu]; simp only [Option.bind_some]; exact hf
   · rw [if_neg hu]
@@ -135,8 +135,8 @@ theorem to_i64_bind_iff {α : Type} (f : Int → Option α) (n k : Int) (a : α)
 
 theorem to_u64_bind_iff {α : Type} (f : Int → Option α) (n k : Int) (a : α)
     (hf : f n = some a ↔ n = k) (hk : inU64 k = true) :
-    (NumTraits.to_u64 n).bind f = some a ↔ n = k := by
-  unfold NumTraits.to_u64
+    (Conv.NumTraits.to_u64 n).bind f = some a ↔ n = k := by
+  unfold Conv.NumTraits.to_u64
   by_cases hu : inU64 n = true
   · rw [if_pos hu]; simp only [Option.bind_some]; exact hf
   · rw [if_neg hu]
